@@ -37,12 +37,18 @@ def run(ctx):
             parts.append({k: ctx.coverage.get(k) for k in ("theorems", "nonvacuity_examples", "axioms")})
         return ok
 
-    prove(PROPS, ["RotoV.Lemmas.Gate", "RotoV.Model.Gate"], targets=("rotov-driver",))
+    prove(PROPS, ["RotoV.Lemmas.Gate", "RotoV.Model.Gate"])
     prove(PROPS + "Sig")
     prove(PROPS + "Reg")
     # how Module::functions is built (Mir::lower, lir::lower, the helper generators, declare_function): a change
     # there breaks exactly the obligations of C04Tab
     prove(PROPS + "Tab", ["RotoV.Model.GateTab"])
+    # the driver imports Generated.Gate and Generated.GateTab: built on its own, so that a failed extraction of
+    # one target breaks the obligations of its own theorem module only (the correspondence run then uses the
+    # driver of the last successful build, whose model is the unchanged tree's)
+    ok, out = ctx.lake_build(["rotov-driver"])
+    ctx.checker_cmds.append("cd /verif/lean && lake build " + common.DRIVER_NAME)
+    ctx.obligation("lake:" + common.DRIVER_NAME, ok, "" if ok else out[-1500:])
     if parts:
         ctx.coverage["theorems"] = [t for p in parts for t in p["theorems"]]
         ctx.coverage["nonvacuity_examples"] = sum(p["nonvacuity_examples"] or 0 for p in parts)
